@@ -137,23 +137,23 @@ func writeEvidence(cfg *RunConfig, runs []*HarnessRun, reports []*HarnessReport,
 			"explanation": "bounded symbolic execution of the real Go SSA of /repo (rebuilt from the working tree on this run) into SMT-LIB2; " +
 				"states = symbolic states explored after merging, transitions = SSA instructions executed symbolically; " +
 				"each obligation is pc => assertion decided by the solver for all values of the symbolic inputs within the harness bounds",
-			"obligations":              obligations,
-			"discharged_by_solver":     discharged,
-			"discharged_syntactically": trivial,
-			"failed":                   failed,
-			"unknown":                  unknown,
-			"assert_ids_reached":       reach,
-			"assumptions_stated":       assumes,
-			"queries":                  map[string]int{"total": q.Queries, "sat": q.Sat, "unsat": q.Unsat, "unknown": q.Unknown, "error": q.Errors, "cache_hits": q.CacheHit},
-			"solver_ms":                q.Millis,
-			"solver":                   solverVersion(cfg.Solver),
-			"functions_encoded":        encoded,
-			"stubs_and_intrinsics":     stubList,
+			"obligations":                           obligations,
+			"discharged_by_solver":                  discharged,
+			"discharged_syntactically":              trivial,
+			"failed":                                failed,
+			"unknown":                               unknown,
+			"assert_ids_reached":                    reach,
+			"assumptions_stated":                    assumes,
+			"queries":                               map[string]int{"total": q.Queries, "sat": q.Sat, "unsat": q.Unsat, "unknown": q.Unknown, "error": q.Errors, "cache_hits": q.CacheHit},
+			"solver_ms":                             q.Millis,
+			"solver":                                solverVersion(cfg.Solver),
+			"functions_encoded":                     encoded,
+			"stubs_and_intrinsics":                  stubList,
 			"uninitialised_dependency_globals_read": lazyList,
-			"unwinding_bound_hits":     unwind,
-			"inconclusive":             inconcl,
-			"harnesses":                reports,
-			"translator_validation":    map[string]int{"sampled_paths_agreeing_with_native_run": rr.TracesOK, "disagreeing": rr.TraceMismatch, "native_replays_run": rr.Replays},
+			"unwinding_bound_hits":                  unwind,
+			"inconclusive":                          inconcl,
+			"harnesses":                             reports,
+			"translator_validation":                 map[string]int{"sampled_paths_agreeing_with_native_run": rr.TracesOK, "disagreeing": rr.TraceMismatch, "native_replays_run": rr.Replays},
 		},
 		"assumptions": []string{
 			"Go semantics as implemented by the gosmt executor (engine/*.go): 64-bit ints as bit-vectors, byte sequences as functional arrays, maps iterate in insertion order",
